@@ -75,6 +75,19 @@ def reserved_names(ctx: Ctx) -> dict[str, str]:
                         out.setdefault(x.id, "codegen/base.py::_shape_info")
             except SyntaxError:
                 pass
+    # ... and from the texts the function can return, wherever they are kept (a module-level table)
+    try:
+        siv = util.value_of(ctx, si)
+        for text in util.strings_in(siv):
+            body = re.sub(r"\{[^{}]*\}", "PH_x", text)
+            try:
+                for x in ast.walk(ast.parse(body)):
+                    if isinstance(x, ast.Name) and not x.id.startswith("PH_"):
+                        out.setdefault(x.id, "codegen/base.py::_shape_info")
+            except SyntaxError:
+                pass
+    except Exception:
+        pass
     cg = sm.func("codegen/base.py", "CodeGenerator.scheme")
     for c in find_calls(cg.node, "Symbol"):
         if c.args and const_str(c.args[0]):
